@@ -128,17 +128,21 @@ class HEXline(object):
             raise HEXError(line)
         v = codecs.encode(self.data, "hex")
         if self.HEXcode == ExtendedSegmentAddress:
-            assert self.count == 2
+            if self.count != 2:
+                raise HEXError(line)
             self.base = int(v, 16)
         if self.HEXcode == StartSegmentAddress:
-            assert self.count == 4
+            if self.count != 4:
+                raise HEXError(line)
             self.cs = int(v[:4], 16)
             self.ip = int(v[4:], 16)
         if self.HEXcode == ExtendedLinearAddress:
-            assert self.count == 2
+            if self.count != 2:
+                raise HEXError(line)
             self.ela = int(v, 16)
         if self.HEXcode == StartLinearAddress:
-            assert self.count == 4
+            if self.count != 4:
+                raise HEXError(line)
             self.eip = int(v, 16)
 
     def pack(self):
